@@ -19,7 +19,7 @@ RULE = ("all multisets of rows (label, group, stratum) below the bound (2..4 gro
         "groups; distinct = distinct multisets")
 ASSUMPTIONS = ["event naming ('all', 'label=1', 'control=<c>,<event>') is taken from the documented index format",
                "datasets in which the conditioned label class never occurs are excluded (the moment then has no constraints)"]
-CLASSES = ["control_strata", "group_lacks_label_in_event", "single_row_group", "stratum_with_one_group", "ratio_bound", "soft_predictor",
+CLASSES = ["falsy_control_level", "control_strata", "group_lacks_label_in_event", "single_row_group", "stratum_with_one_group", "ratio_bound", "soft_predictor",
            "metricframe_crosscheck", "bounded_group_loss", "error_rate_costs"]
 
 cases = MC.cases
@@ -39,6 +39,8 @@ def run_case(case):
     V = out["violations"]
     if c is not None:
         out["classes"].add("control_strata")
+        if any(not v for v in c):
+            out["classes"].add("falsy_control_level")
         for s in set(c):
             if len(set(a[i] for i in range(n) if c[i] == s)) == 1:
                 out["classes"].add("stratum_with_one_group")
@@ -129,6 +131,7 @@ def run_case(case):
                                 d = mf.by_group[grp] - mf.overall
                             else:
                                 s_ = e_[len("control="):].split(",", 1)[0]
+                                s_ = {str(v): v for v in c}[s_]  # back to the original level (may be the integer 0)
                                 d = mf.by_group[(s_, grp)] - mf.overall[s_]
                             if not close(float(v), float(d), 1e-12):
                                 V.append(viol("C06:%s:metricframe-mismatch" % name, "gamma[%r]=%r but MetricFrame by_group-overall=%r (h=%r, %s)" % (k, float(v), float(d), hp, snipbase)))
